@@ -429,6 +429,9 @@ class Fn:
                     return ex["int"]
                 if ex.get("static_name"):
                     return "static:" + ex["static_name"]
+                if ex.get("pointee") and not x[2].startswith('"'):
+                    # `&CONST` (e.g. a promoted `&TokenKind::Name`): show the value behind it
+                    return "&const:" + ex["pointee"]
                 if ex.get("fn_name"):
                     return "fn:" + ex["fn_name"]
                 return "const:" + x[2]
